@@ -188,10 +188,10 @@ P('C03',
   level='fault_enumeration',
   extra_c=['ttx_shim.c'],
   watchdog=900,
-  technique='property-based testing with exhaustive fault injection: generated base transmissions, every single-bit fault of every Hamming protected byte / triplet enumerated, double-bit header / address / designation faults enumerated, parity and burst faults sampled; metamorphic oracle against reference runs (fault-free, packet dropped, pages in progress abandoned)',
+  technique='property-based testing with exhaustive fault injection: generated base transmissions, every single-bit fault of every Hamming protected byte / triplet enumerated, double-bit header / address / designation faults enumerated, double-bit faults in every X/26 triplet, parity and burst faults sampled; metamorphic oracle against reference runs (fault-free, packet dropped, enhancement data cut, pages in progress abandoned)',
   rule='base = serial or parallel transmission of 1-3 magazines x 1-2 pages over 2-3 cycles with and without erase (rows from the C02 grammar, X/26 character '
        'replacements, X/27/0, X/27/4, X/28/0, M/29/0, 8/30 format 1 and 2); faults per base: every single bit of every Hamming 8/4 byte and 24/18 triplet, all 28 '
-       'in-byte double errors of every address / designation byte and of the eight header bytes, parity errors in every text row, sampled bursts with dropped packets. '
+       'in-byte double errors of every address / designation byte and of the eight header bytes, two bit errors in every triplet of every X/26 packet (2 sampled pairs each), parity errors in every text row, sampled bursts with dropped packets. '
        'Non-trivial base: contains an enhancement or service packet and a retransmission without erase; distinct = hash of consumed choices. The histogram counts the fault runs per class.',
   level_text='Fault enumeration over generated transmissions with a metamorphic oracle: (1) each single-bit fault in a Hamming protected byte or triplet must leave '
              'the set of cached pages, every fetched page (levels 1.5 and 2.5: all cells, colour map, links) and the complete event log identical to the fault-free run; '
@@ -224,17 +224,18 @@ P('C17',
   )
 
 P('C13',
-  technique='property-based testing: generated reception histories over VPS, 8/30 format 1 and 2 and WSS (repeats, station changes, isolated corrupted words, interleaved carriers); oracle = per-carrier debounce model, transmitter-side value decoders, Teletext cache witness page',
+  technique='property-based testing: generated reception histories over VPS, 8/30 format 1 and 2, the XDS network name and WSS (repeats, station changes, isolated corrupted words, interleaved carriers); oracle = per-carrier debounce model, transmitter-side value decoders, Teletext cache witness page',
   rule='history = 10-120 frames; scenario A: one carrier (VPS, 8/30 format 1 or 2) with values from {two known stations, an unknown CNI, one-off corrupted words} in runs '
        'of 1-6; scenario B: one station on 2-3 carriers interleaved by a generated schedule with isolated corrupted receptions, then a change to another known station; '
-       'scenario C: WSS 625 words (8 aspect codes x film bit x subtitle bits, valid or invalid parity) in runs of 1-8; a Teletext witness page is cached before. '
+       'scenario C: WSS 625 words (8 aspect codes x film bit x subtitle bits, valid or invalid parity) in runs of 1-8; scenario D (6 % of A): XDS network name packets, with or without call letters, '
+       'of two stations in runs of 1-5 with single deviating names or call letters; a Teletext witness page is cached before. '
        'Non-trivial: an isolated deviation between identical receptions, or a station change while the witness page is cached, or a WSS word announced after another one; distinct = hash of consumed choices.',
   level_text='Generated-history search with an explicit oracle: single-carrier histories are compared event by event with the documented debounce (announce on the second '
              'identical reception, not again while unchanged, NETWORK only when the identified station changes, cache witness dropped exactly then); all histories: every '
              'NETWORK / NETWORK_ID event reports the CNI last received on each carrier and requires a repeated identifier in its frame, PROG_ID and LOCAL_TIME values equal the '
              'transmitted fields (VPS programme ids only after a repeat), an isolated deviation raises no NETWORK event and keeps the cache, a change between known stations raises '
              'exactly one NETWORK event and drops the cache; WSS: no ASPECT event before 4 identical receptions or with wrong group-1 parity, values as transmitted, a changed ratio / film / subtitle value is announced. Sampling only.',
-  level_note='Trusted: models/bsd_enc.h transmitters, the CNI table of the library for station names / ids (the oracle uses its own first-match lookup). XDS network announcements are checked by C09 part B. The shared confirmation cycle of the decoder makes "not announced again" carrier-dependent; it is asserted exactly for single-carrier histories only.',
+  level_note='Trusted: models/bsd_enc.h transmitters, the CNI table of the library for station names / ids (the oracle uses its own first-match lookup). XDS: the value fidelity of announcements is checked by C09 part B, the debounce by scenario D here. The shared confirmation cycle of the decoder makes "not announced again" carrier-dependent; it is asserted exactly for single-carrier histories only.',
   design_ref='DESIGN.md section 2, C13',
   quick=dict(cases=250000, max_size=1500, max_seconds=120),
   thorough=dict(cases=8000000, max_size=1500, max_seconds=1500, fuzz=dict(seconds=180, jobs=8, max_len=1500)),
